@@ -49,6 +49,15 @@ func main() {
 		}
 		return
 	}
+	if *debug == "tables" {
+		p, err := engine.Load(engine.Config{Repo: *repo})
+		if err != nil {
+			fmt.Fprintln(os.Stderr, err)
+			os.Exit(2)
+		}
+		engine.DebugTables(p)
+		return
+	}
 	if *debug == "items" {
 		engine.DebugItems(*repo)
 		return
